@@ -107,7 +107,7 @@ func (c *lcCase) pendingGates() []*lcGate {
 
 // settle: every running worker is at a create gate, blocked on an in-flight channel, or has returned
 func (c *lcCase) settle() {
-	deadline := time.Now().Add(2 * time.Second)
+	deadline := time.Now().Add(settleBound)
 	for {
 		stable := true
 		var gs map[int64]goState
@@ -148,7 +148,7 @@ func (c *lcCase) settle() {
 			return
 		}
 		if time.Now().After(deadline) {
-			c.ctx.R.Quiet("mon C09-no-stuck-caller", "the system did not settle within 2s")
+			c.ctx.R.Quiet("mon C09-no-stuck-caller", "the system did not settle within 10s")
 			c.failed = true
 			return
 		}
